@@ -5,12 +5,15 @@ import (
 	"encoding/hex"
 	"encoding/json"
 	"fmt"
+	"io"
+	stdlog "log"
 	"math"
 	mrand "math/rand"
 	"net"
 	"os"
 	"path/filepath"
 	"reflect"
+	"runtime"
 	"sort"
 	"strings"
 	"sync"
@@ -26,6 +29,8 @@ import (
 	"github.com/honeytrap/honeytrap/pushers"
 	"github.com/honeytrap/honeytrap/server"
 	"github.com/honeytrap/honeytrap/services/ftp"
+	"github.com/honeytrap/honeytrap/verifyield"
+	logging "github.com/op/go-logging"
 	"github.com/honeytrap/honeytrap/services/ipp"
 	"github.com/honeytrap/honeytrap/services/smtp"
 
@@ -161,6 +166,7 @@ type ConnObs struct {
 }
 
 type Obs struct {
+	Yields    int // yield points at which the run gave way to other goroutines
 	Conns     []ConnObs
 	Events    []CapEvent
 	NetLog    []string
@@ -209,6 +215,11 @@ func prepareProcess(t *testing.T) {
 	}
 	installSeams()
 	ipp.VerifResetModel()
+	// no write(2) from inside a bubble: a goroutine in a system call can lose its P to the runtime's monitor
+	// thread and comes back through the global run queue - an order that depends on wall-clock timing.  The
+	// loggers of honeytrap (go-logging and the standard log package) write to memory-less sinks instead.
+	logging.SetBackend(logging.NewLogBackend(io.Discard, "", 0))
+	stdlog.SetOutput(io.Discard)
 	tmpl := os.Getenv("VERIF_DATADIR_TEMPLATE")
 	dir, err := os.MkdirTemp("", "htsim-data-")
 	if err != nil {
@@ -334,6 +345,26 @@ func RunScenario(t *testing.T, sc *Scenario, custom func(w *World)) (obs *Obs) {
 	n := simnet.New()
 	simnet.Current = n
 	mrand.Seed(int64(sc.Seed))
+	// yield points: in runs that ask for it, a goroutine reaching a synchronisation point gives way to the other
+	// runnable goroutines of the step when the run's own choice stream says so (GOMAXPROCS=1: deterministic)
+	verifyield.Hook = nil
+	obs.Yields = 0
+	if pct := sc.ParamInt("yield_pct", 0); pct > 0 {
+		yr := NewRng(sc.Seed, "yield")
+		ylog := os.Getenv("VERIF_YIELDLOG") != ""
+		verifyield.Hook = func() {
+			take := yr.Intn(100) < pct
+			if ylog {
+				_, file, line, _ := runtime.Caller(2)
+				obs.Trace = append(obs.Trace, fmt.Sprintf("Y %s:%d %v", filepath.Base(file), line, take))
+			}
+			if take {
+				obs.Yields++
+				runtimeGoyield()
+			}
+		}
+	}
+	defer func() { verifyield.Hook = nil }()
 	name := fmt.Sprintf("run-%d", sc.Seed)
 	t.Run(name, func(t *testing.T) {
 		cryptotest.SetGlobalRandom(t, sc.Seed)
